@@ -15,16 +15,20 @@ HASHSEEDS = {"quick": [0, 1, 2, 3], "thorough": list(range(16))}
 BUDGET_S = {"quick": 120, "thorough": 1200}
 EXHAUSTIVE = {"quick": False, "thorough": False}
 RULE = ("random discrete Bayesian networks with 1..6 variables, cardinalities 1..5 (and 10..12 for the UAI string "
-        "sort), 0..4 parents per CPD in shuffled declared order with mostly UNEQUAL cardinalities, identifier names "
-        "for variables and states including the format keywords as substrings (variable, probability, network, "
-        "table, default, property, type, node, potential, data, states, net), state names shared between variables, "
-        "CPD entries from {0, 1, exact dyadics, thirds, 1e-12..1e-3 magnitudes}; every case is written and read in all "
-        "four formats through the reader/writer classes and (bif, xmlbif, uai) through save/load on a temp file, "
-        "BIF with n_jobs 1 or 2; tables with more than 1000 entries for NET; Markov networks (UAI) with random "
-        "factor scopes and values.  Compared: nodes, edges, state names as strings, the value of EVERY named "
-        "assignment (exact float equality for BIF/XMLBIF/UAI, numpy round(4) for NET), parent order and flat table "
-        "against the model's read-back, and the written text (variable order, parent order, number list) against "
-        "the model's abstract document.  Non-trivial: some CPD has a parent; distinct = distinct canonical case")
+        "sort), 0..4 parents per CPD in shuffled declared order with mostly UNEQUAL cardinalities; identifier names for "
+        "variables AND states that equal a format keyword (node, table, variable, probability, default, potential, "
+        "data, states, net, network, property, type), contain one (xvariable, table1, defaulted, xnode, ...) or are "
+        "plain, state names shared between variables; CPD entries from {0, 1, exact dyadics, thirds, 1e-12..1e-3 "
+        "magnitudes}; fixed structures for every input class on which an earlier reader/writer version failed "
+        "(one-value UAI tables, one variable of cardinality >= 10, *node as non-last NET parent, table/default followed "
+        "by number characters, probability headers ending in *variable, isolated Markov nodes, tables > 1000 entries); "
+        "every case is written and read through the reader/writer classes (XMLBIF, UAI, NET always, BIF on 40% of the "
+        "cases because constructing a BIFReader costs 2 s) and through save/load on a temp file, BIF with n_jobs 1 "
+        "or 2; Markov networks (UAI) with random factor scopes and values.  Compared: nodes, edges, state names as "
+        "strings, the value of EVERY named assignment (exact float equality for BIF/XMLBIF/UAI, numpy round(4) for "
+        "NET), parent order and flat table against the model's read-back, and the written text (variable order, "
+        "parent order, number list) against the model's abstract document.  Any exception of a reader or writer on "
+        "these valid models is a violation.  Non-trivial: some CPD has a parent; distinct = distinct canonical case")
 TRUSTED_BASE = ["pyparsing / xml.etree tokenisation of the text (the harness parses the written text independently "
                 "with regular expressions to obtain the abstract document)",
                 "numpy array printing (NET) and float repr round trip",
@@ -37,27 +41,24 @@ ASSUMPTIONS = ["variable names are interned to nat by their rank in python's str
 
 TMP = "/var/tmp/c09"
 
-KW_NAMES = ["variable_a", "xvariable", "probability", "my_probability_x", "network", "networkx", "table", "tablex",
-            "a_table", "default", "default_q", "property", "property_b", "type", "discrete", "node", "nodex",
-            "potential", "data", "xdata", "states", "net", "netx", "xnet", "name"]
+# names EQUAL to a keyword of some format, names containing one, and names on which earlier reader versions failed
+# (table1/defaulted: 'table'/'default' prefix + number characters; *variable at the end of a probability header;
+#  *node as a non-last NET parent) -- all are ordinary identifiers and must round trip
+KW_EQUAL = ["node", "table", "variable", "probability", "default", "potential", "data", "states", "net", "network",
+            "property", "type", "discrete"]
+KW_NAMES = KW_EQUAL + ["variable_a", "xvariable", "my_variable", "my_probability_x", "xprobability", "networkx",
+                       "tablex", "a_table", "table1", "tablee", "default_q", "default2", "defaulted", "property_b",
+                       "nodex", "xnode", "anode", "xdata", "netx", "xnet", "name", "xpotential", "statesx"]
 PLAIN_NAMES = ["A", "B", "C", "D", "E", "F", "rain", "sprinkler", "wet_grass", "x1", "x2", "x10", "y_0", "Zz", "e", "E1",
-               "alpha", "beta"]
-TRIGGER_NAMES = ["table1", "defaulted", "xnode", "anode", "default2", "tablee"]
+               "alpha", "beta", "_u", "gamma"]
 STATE_POOLS = [["yes", "no"], ["true", "false"], ["low", "mid", "high", "vhigh", "top"],
                ["s0", "s1", "s2", "s3", "s4", "s5", "s6", "s7", "s8", "s9", "s10", "s11", "s12"],
-               ["table", "default", "property", "variable", "probability"],
-               ["node", "data", "states", "potential", "net"],
+               ["node", "table", "variable", "probability", "default", "potential", "data", "states", "net",
+                "network", "property", "type", "discrete"],
+               ["table1", "defaulted", "xnode", "xvariable", "my_probability", "tablee", "default2", "nodes",
+                "xdata", "netx", "e1", "E", "e"],
                ["a", "b", "c", "d", "e", "E", "f", "g", "h", "i", "j", "k", "l"]]
 
-FINDINGS = {
-    "net-big": "net-writer-ndarray-str-threshold",
-    "uai-single": "uai-single-value-table",
-    "net-node": "net-reader-node-suffix-parent",
-    "bif-table": "bif-table-default-prefix-number",
-    "mn-isolated": "uai-markov-isolated-node",
-    "bif-variable": "bif-variable-suffix-header-end",
-    "uai-onevar": "uai-single-variable-multidigit-card",
-}
 
 
 def worker_init():
@@ -87,10 +88,14 @@ def gen_column(rng, k, mode):
     return col
 
 
-def gen_bn(rng, n, trigger=False, big=False, uai_big_cards=False):
-    pool = KW_NAMES + PLAIN_NAMES if not trigger else KW_NAMES + PLAIN_NAMES + TRIGGER_NAMES * 3
-    if rng.random() < 0.3 and not trigger:
+def gen_bn(rng, n, big=False, uai_big_cards=False, forced=None):
+    """forced = (names, cards, parents, state pool index or None): a fixed structure with random tables"""
+    pool = KW_NAMES + PLAIN_NAMES
+    r = rng.random()
+    if r < 0.3:
         pool = KW_NAMES
+    elif r < 0.45:
+        pool = KW_EQUAL
     names = rng.sample(pool, n)
     order = list(range(n))
     rng.shuffle(order)  # hidden topological order
@@ -115,10 +120,18 @@ def gen_bn(rng, n, trigger=False, big=False, uai_big_cards=False):
         while ps and cards[v] * _prod(cards[p] for p in ps) > 700:
             ps.pop()
         parents[v] = ps
+    if forced:
+        names, fc, fp, spi = forced
+        names = list(names)
+        cards = dict(fc)
+        parents = {v: list(fp.get(v, [])) for v in names}
+        for v in names:
+            sp = STATE_POOLS[spi] if spi is not None else rng.choice([q for q in STATE_POOLS if len(q) >= cards[v]])
+            states[v] = rng.sample(sp, cards[v])
     if big:
         # one CPD with more than 1000 entries
         names = ["a", "b", "c", "d"][:4]
-        cards = {"a": rng.choice([7, 10]), "b": rng.choice([6, 10]), "c": rng.choice([5, 10]), "d": rng.choice([2, 4, 8])}
+        cards = {"a": rng.choice([10, 12]), "b": rng.choice([9, 10]), "c": rng.choice([6, 10]), "d": rng.choice([2, 3, 8])}
         states = {v: ["s%d" % i for i in range(cards[v])] for v in names}
         pl = ["a", "b", "c"]
         rng.shuffle(pl)
@@ -160,7 +173,7 @@ def gen_mn(rng, isolated=False):
     # single-variable factors on variables that are in some larger factor
     covered = sorted({v for sc, _ in factors for v in sc})
     for v in covered:
-        if rng.random() < 0.3 and cards[v] > 1:
+        if rng.random() < 0.3:
             factors.append([[v], [rng.choice([0.5, 2.0, 1e-7, 3.0]) for _ in range(cards[v])]])
     names = covered
     if isolated:
@@ -170,6 +183,28 @@ def gen_mn(rng, isolated=False):
         factors.append([[v], [0.25, 4.0]])
     rng.shuffle(factors)
     return {"names": names, "cards": {v: cards[v] for v in names}, "factors": factors}
+
+
+REGRESSION_STRUCTURES = [
+    # (names, cards, parents, state pool index)
+    (["x"], {"x": 1}, {}, None),                                           # UAI: one-value table
+    (["x", "y"], {"x": 1, "y": 1}, {"y": ["x"]}, None),                    # UAI: one-value table with a parent
+    (["rain"], {"rain": 12}, {}, 3),                                       # UAI: one variable, two-digit cardinality
+    (["xnode", "node", "b", "c"], {"xnode": 2, "node": 3, "b": 2, "c": 2},
+     {"c": ["xnode", "node", "b"], "b": ["node"]}, 4),                     # NET: *node as non-last parent
+    (["table1", "default2", "defaulted", "tablee", "c"],
+     {"table1": 2, "default2": 3, "defaulted": 2, "tablee": 2, "c": 2},
+     {"c": ["table1", "default2"], "defaulted": ["tablee"]}, 5),          # BIF: table/default + number characters
+    (["xvariable", "variable", "my_variable", "probability", "z"],
+     {"xvariable": 2, "variable": 3, "my_variable": 2, "probability": 2, "z": 2},
+     {"probability": ["z", "xvariable"], "z": ["my_variable", "variable"]}, 4),   # BIF: header ends in *variable
+    (["node", "table", "variable", "probability", "default"],
+     {"node": 2, "table": 3, "variable": 2, "probability": 4, "default": 2},
+     {"table": ["node"], "probability": ["table", "node", "variable"], "default": ["probability", "variable"]}, 4),
+    (["potential", "data", "states", "net", "network"],
+     {"potential": 3, "data": 2, "states": 4, "net": 2, "network": 3},
+     {"data": ["potential"], "net": ["states", "data", "potential"], "network": ["net", "states"]}, 4),
+]
 
 
 def cases(tier, seed):
@@ -184,9 +219,12 @@ def cases(tier, seed):
         c = {"kind": "bn", "bn": gen_bn(rng, n, uai_big_cards=(i % 5 == 0)), "njobs": 2 if i % 100 == 12 else 1,
              "saveload": i % 3 == 0 and i % 10 != 0, "formats": ["bif", "xmlbif", "uai", "net"] if bif else ["xmlbif", "uai", "net"]}
         out.append(c)
-    for i in range(12 if tier == "quick" else 120):
-        out.append({"kind": "bn", "bn": gen_bn(rng, rng.choice([3, 4, 5]), trigger=True), "njobs": 1, "saveload": False,
-                    "formats": ["bif", "xmlbif", "uai", "net"]})
+    # fixed structures: the input classes on which earlier reader/writer versions failed, and keyword-equal names
+    # for variables and states together (every one of them is an ordinary round trip now)
+    for rep in range(1 if tier == "quick" else 6):
+        for names, fc, fp, spi in REGRESSION_STRUCTURES:
+            out.append({"kind": "bn", "bn": gen_bn(rng, len(names), forced=(names, fc, fp, spi)), "njobs": 1,
+                        "saveload": rep % 2 == 1, "formats": ["bif", "xmlbif", "uai", "net"]})
     for i in range(6 if tier == "quick" else 40):
         out.append({"kind": "bn", "bn": gen_bn(rng, 4, big=True), "njobs": 1, "saveload": i % 2 == 0,
                     "formats": ["xmlbif", "uai", "net"] + (["bif"] if i % 3 == 0 else [])})
@@ -342,30 +380,6 @@ def same_val(fmt, got, orig):
     return got == orig
 
 
-def diagnose_bn(fmt, b, exc, text):
-    """known-finding classes; each predicate is narrow: format, exception type and the triggering input feature"""
-    names = b["names"]
-    if fmt == "net" and isinstance(exc, ValueError) and text is not None and "..." in text and \
-            any(len(b["values"][v]) * len(b["values"][v][0]) > 1000 for v in names):
-        return FINDINGS["net-big"]
-    if fmt == "uai" and isinstance(exc, ValueError) and "could not convert string to float" in str(exc) and \
-            any(len(b["values"][v]) * len(b["values"][v][0]) == 1 for v in names):
-        return FINDINGS["uai-single"]
-    if fmt == "net" and isinstance(exc, IndexError) and \
-            any(p.endswith("node") for v in names for p in b["parents"][v][:-1]):
-        return FINDINGS["net-node"]
-    if fmt == "bif" and isinstance(exc, ValueError) and any(re.search(r"(table|default)[0-9eE.+-]", v) for v in names):
-        return FINDINGS["bif-table"]
-    if fmt == "bif" and isinstance(exc, IndexError) and \
-            any((b["parents"][v][-1] if b["parents"][v] else v).endswith("variable") for v in names):
-        # the last name before " ) {" of some probability header ends in "variable"
-        return FINDINGS["bif-variable"]
-    if fmt == "uai" and isinstance(exc, ValueError) and "values must be of shape" in str(exc) and len(names) == 1 and \
-            len(b["states"][names[0]]) >= 10:
-        return FINDINGS["uai-onevar"]
-    return None
-
-
 def check_doc(fmt, text, doc, b, id_var, id_state, flats):
     """written text (parsed independently) == the model's abstract document"""
     def names_states(vs):
@@ -494,12 +508,25 @@ def run_bn(case, drv):
     if any(len(b["states"][v]) == 1 for v in names):
         tags.append("card=1")
     if any(v in KW_NAMES for v in names):
-        tags.append("keyword names")
+        tags.append("variable name contains keyword")
+    if any(v in KW_EQUAL for v in names):
+        tags.append("variable name == keyword")
+    if any(st in KW_EQUAL for v in names for st in b["states"][v]):
+        tags.append("state name == keyword")
+    if any(sz == 1 for sz in sizes):
+        tags.append("one-value table")
+    if len(names) == 1 and len(b["states"][names[0]]) >= 10:
+        tags.append("one variable, card>=10")
+    if any(p.endswith("node") for v in names for p in b["parents"][v][:-1]):
+        tags.append("*node as non-last parent")
+    if any(re.search(r"(table|default)[0-9eE]", v) for v in names):
+        tags.append("name table/default+[0-9eE]")
+    if any((b["parents"][v][-1] if b["parents"][v] else v).endswith("variable") for v in names):
+        tags.append("probability header ends in *variable")
     key = common.canon_key(["bn", b["names"], b["node_order"], b["states"], b["parents"], b["values"],
                             case["njobs"], case["saveload"], case.get("formats")])
     fmts = [("bif", BIFWriter, BIFReader), ("xmlbif", XMLBIFWriter, XMLBIFReader),
             ("uai", UAIWriter, UAIReader), ("net", NETWriter, NETReader)]
-    pending = None
     for fmt, W, R in fmts:
         if fmt not in case.get("formats", ["bif", "xmlbif", "uai", "net"]):
             continue
@@ -510,18 +537,8 @@ def run_bn(case, drv):
             kw = {"n_jobs": case["njobs"]} if fmt == "bif" else {}
             m2 = R(string=text, **kw).get_model()
         except Exception as e:  # a writer or reader that cannot handle a valid model violates the property
-            f = diagnose_bn(fmt, b, e, text)
-            if f is not None and pending is None:
-                # a listed defect class: remember it, keep checking the other formats on this case
-                pending = bad("roundtrip-raises:%s:%s" % (fmt, type(e).__name__), {"error": str(e)[:300], "names": names,
-                              "parents": b["parents"], "cards": {v: len(b["states"][v]) for v in names}},
-                              finding=f, key=key, tags=tags)
-                continue
-            if f is not None:
-                continue
             return bad("roundtrip-raises:%s:%s" % (fmt, type(e).__name__), {"error": str(e)[:300], "names": names,
-                       "parents": b["parents"], "cards": {v: len(b["states"][v]) for v in names}},
-                       finding=f, key=key, tags=tags)
+                       "parents": b["parents"], "cards": {v: len(b["states"][v]) for v in names}}, key=key, tags=tags)
         entry = "c09_" + fmt
         reply = drv.call(entry, req)
         doc, rb = reply[0], reply[1]
@@ -590,8 +607,6 @@ def run_bn(case, drv):
             if got3 != got or e3 != edges2:
                 return bad("impl!=spec:%s-load-differs-from-reader" % fmt, {}, key=key, tags=tags)
             tags.append("save/load " + fmt)
-    if pending is not None:
-        return pending
     return ok(nontrivial=maxpar >= 1, key=key, tags=tags)
 
 
@@ -625,19 +640,17 @@ def run_mn(case, drv):
     tags = ["mn vars=%d" % len(names), "factors=%d" % len(mfacs), "isolated=%d" % len(isolated)]
     if any(c >= 10 for c in cards.values()):
         tags.append("card>=10")
+    if any(len(fl) == 1 for fl in flats):
+        tags.append("one-value factor")
+    if any(v in KW_EQUAL for v in names):
+        tags.append("variable name == keyword")
     text = None
     try:
         text = str(UAIWriter(m))
         m2 = UAIReader(string=text).get_model()
     except Exception as e:
-        f = None
-        if isinstance(e, ValueError) and "not in the model" in str(e) and isolated:
-            f = FINDINGS["mn-isolated"]
-        elif isinstance(e, ValueError) and "could not convert string to float" in str(e) and \
-                any(len(fl) == 1 for fl in flats):
-            f = FINDINGS["uai-single"]
-        return bad("roundtrip-raises:uai-markov:%s" % type(e).__name__, {"error": str(e)[:300], "factors": [sc for sc, _ in g["factors"]],
-                   "cards": cards}, finding=f, key=key, tags=tags)
+        return bad("roundtrip-raises:uai-markov:%s" % type(e).__name__, {"error": str(e)[:300],
+                   "factors": [sc for sc, _ in g["factors"]], "cards": cards}, key=key, tags=tags)
     reply = drv.call("c09_uai_mn", req)
     (mdom, mscopes, mtabs), rb, numl = reply
     kind, dom, scopes, tables, complete = parse_uai(text)
